@@ -17,7 +17,7 @@ THRESH = [F(3, 10), F(45, 100), F(55, 100), F(0), F(1, 2), F(1), F(3, 4), F(1, 4
 
 
 def gen_matrix(rng, n):
-    kind = rng.choice(["grid", "ties", "01", "coarse", "additive", "neartie", "neartie", "negative", "inf"])
+    kind = rng.choice(["grid", "ties", "01", "coarse", "additive", "neartie", "neartie", "negative", "inf", "int"])
     if kind == "grid":
         vals = GRID
     elif kind == "ties":
@@ -26,6 +26,8 @@ def gen_matrix(rng, n):
         vals = [F(0), F(1)]
     elif kind == "coarse":
         vals = [F(0), F(1, 2), F(1)]
+    elif kind == "int":
+        vals = [F(k) for k in range(0, 8)]               # raw counts: whole numbers (handed over as Python ints / int arrays)
     elif kind == "negative":
         vals = [F(k, 4) for k in range(-3, 6)]          # negative entries are legal cells of a symmetric matrix
     elif kind == "inf":
@@ -66,7 +68,7 @@ def gen_case(rng, max_n):
     t1, t2 = sorted([thr(), thr()])
     return {"method": meth, "n": n, "kind": kind, "matrix": m, "t1": t1, "t2": t2,
             "container": rng.choice(["list", "list", "numpy"]),
-            "taxa_container": rng.choice(["list", "list", "tuple", "str"]),
+            "taxa_container": rng.choice(["list", "list", "tuple", "str"]), "int_cells": rng.random() < 0.6,
             "names": rng.choice(["plain", "odd"]), "int_thr": rng.random() < 0.3,
             "entry": rng.choice(["flat_cluster", "flat_upgma"])}
 
@@ -125,7 +127,16 @@ def run_impl(case):
     else:
         taxa = ["t%d" % i for i in range(n)]
 
+    whole = all(x.denominator == 1 and x != INF for r in case["matrix"] for x in r)
+
     def mk():
+        if whole and case.get("int_cells"):
+            # a matrix of whole numbers as Python ints or as an integer numpy array (averages must not be truncated)
+            im = [[int(x) for x in r] for r in case["matrix"]]
+            if case.get("container") == "numpy":
+                import numpy as np
+                return np.array(im, dtype=int)
+            return im
         if case.get("container") == "numpy":
             import numpy as np
             return np.array(fm, dtype=float)
@@ -255,7 +266,7 @@ def shrink(case):
 
 def classify(case, res):
     return ["method=" + case["method"], "n=%d" % case["n"], "kind=" + case["kind"],
-            "container=" + case.get("container", "list"), "taxa_container=" + case.get("taxa_container", "list"), "names=" + case.get("names", "plain"),
+            "container=" + case.get("container", "list"), "taxa_container=" + case.get("taxa_container", "list"), "int_cells=%s" % bool(case.get("int_cells")), "names=" + case.get("names", "plain"),
             "entry=" + (case.get("entry", "flat_cluster") if case["method"] == "upgma" else "flat_cluster"),
             "clusters_t1=%d" % len(res["out"]),
             "thr_is_entry" if any(case["t1"] == x for r in case["matrix"] for x in r) else "thr_not_entry"]
